@@ -18,6 +18,12 @@ LEVEL = "proof"
 # NOT_MMAPED, bfa27a0 descriptor closed when flock fails, 8dc0de1 forward-overlapping copy through the file carried out): the
 # oracle demands the repaired behaviour and their directed scripts run on every run.  (OPEN stays as a name for these places.)
 OPEN = True
+# Round 7: findings reported on the unmodified library whose repairs are delivered as fixes/exf-negative-size.diff,
+# fixes/exf-readonly-window-write.diff, fixes/exf-addmmap-overlap-leak.diff.  Until the integrator has committed them the default run
+# does not generate the inputs (negative sizes; writes/copies on a read-only handle with windows; refused overlapping add_mmap watched
+# for its mapping); VERIF_C12_OPEN=1 generates them, runs corpus/C12/pending and reports.  The model already describes the repaired code.
+R7 = os.environ.get("VERIF_C12_OPEN") == "1"
+I64 = 1 << 63
 PS = os.sysconf("SC_PAGESIZE")
 OFFMAX = (1 << 63) - 1
 HUGE = [(1 << 63) - 1, (1 << 64) - 1]
@@ -70,6 +76,7 @@ class Oracle:
         self.mapfailed = False  # ... and a call has answered ERRNO under it: windows may be unmapped from now on
         self.exists = None  # the data file exists (None: not known yet - the scripts of one harness process share the file)
         self.ro = False  # opened read-only
+        self.ro_writes = False  # `rowrites 1`: the harness lets addmm/rmmm/write/copy through to a read-only handle
         self.locks_next = self.locks = False  # use_locks of the next / the current handle
         self.held = 0  # read locks the caller holds (successful acquire_mmap without release_mmap)
         self.acq_failed = False  # an acquire_mmap has failed on this handle (open finding: the lock is kept)
@@ -125,6 +132,8 @@ class Oracle:
             w.len = min(w.maxlen, max(0, n - w.off))
 
     def ensure(self, sz):
+        if sz < 0:
+            return "OOB"  # not a size (-1 is the "dispose" argument of the resize policies): refused, nothing changes
         if self.size >= sz:
             return "OK"
         n = self.policy(sz)
@@ -158,6 +167,9 @@ class Oracle:
             return {"rc": ["OK"], "raw": not self.opened}
         if op == "locks":
             self.locks_next = int(t[1]) != 0
+            return {"rc": ["OK"], "raw": not self.opened}
+        if op == "rowrites":
+            self.ro_writes = int(t[1]) != 0
             return {"rc": ["OK"], "raw": not self.opened}
         if op == "raw":
             if self.opened:
@@ -215,7 +227,15 @@ class Oracle:
         if not self.opened:
             return {"rc": ["NOTOPEN"], "raw": True}
         if self.ro and op not in ("read", "state", "probe", "syncmm", "close"):
-            return {"rc": ["ROMODE"]}
+            if not (self.ro_writes and op in ("addmm", "rmmm", "write", "copy")):
+                return {"rc": ["ROMODE"]}
+            if op == "write":  # no byte may change and nothing may fault, window or not
+                off, n = int(t[1]), (len(t[2]) // 2 if t[2] != "-" else 0)
+                if off < 0 or off + n > OFFMAX:
+                    return {"rc": ["OOB"], "sp": 0}
+                return {"rc": ["MAXOFF" if self.maxoff and off + n > self.maxoff else "READONLY"], "sp": 0}
+            if op == "copy":
+                return {"rc": ["READONLY"]}
         if self.locks and self.needs_wlock(t):
             if self.held > 0:  # documented: the caller still holds the read lock of a successful acquire_mmap
                 return {"rc": ["HANG"], "raw": True}
@@ -261,7 +281,7 @@ class Oracle:
             return {"rc": ["OK"], "sp": cnt, "data": bytes(self.data[off:off + cnt]), "mask": bytes(self.unk[off:off + cnt])}
         if op == "copy":
             off, siz, noff = int(t[1]), int(t[2]), int(t[3])
-            rc = self.ensure(noff + siz)
+            rc = self.ensure((noff + siz + I64) % (2 * I64) - I64)
             if rc != "OK":
                 return {"rc": [rc]}
             fwd = noff > off and siz > 0 and noff < off + siz
@@ -270,6 +290,8 @@ class Oracle:
             e = {"rc": ["OK", "OVERFLOW"] if fwd and not OPEN else ["OK"], "copy": (off, n, noff), "fwd": fwd}
             return e
         if op == "truncate":
+            if int(t[1]) < 0:
+                return {"rc": ["OOB"]}
             n = rup(int(t[1]))
             if n > self.size and self.maxoff and n > self.maxoff:
                 return {"rc": ["MAXOFF"]}
@@ -631,7 +653,15 @@ def gen_script(rng, run):
             off = pick_off(rng, o, lim)
             n = min(pick_len(rng, o, off, lim), 2 * PS + 3)
             noff = rng.choice([pick_off(rng, o, lim), max(0, off + rng.choice([-n - 1, -n, -n + 1, -1, 1, n - 1, n, n + 1]))])
+            far = rng.chance(1, 5)
+            if far:  # overlapping ranges a chunk (4096 bytes, iwp_copy_bytes) or more apart, in either direction: the order of the chunks matters
+                dist = rng.choice([PS - 1, PS, PS + 1, 2 * PS - 1, 2 * PS, 2 * PS + 1])
+                n = dist + rng.choice([1, 7, PS - 1, PS, PS + 5])
+                noff = max(0, off + dist if rng.chance(2, 3) else off - dist)
+                run.dist("copy:far-overlap")
             emit(copy_line(off, n, noff))
+            if far and o.opened:
+                emit("read %d %d" % (noff, n))
         elif k == "truncate":
             emit("truncate %d" % pick_off(rng, o, lim))
         elif k == "ensure":
@@ -677,6 +707,17 @@ def gen_script(rng, run):
                 emit("read 0 %d" % min(o.size, 3 * PS))
                 emit("read %d %d" % (max(0, o.size - 5), 10))
                 emit(rng.choice(["state", "probe 0", "write 0 aa", "truncate 0", "syncmm 0"]))
+                if R7:  # writes and copies on the read-only handle, through windows and through the file
+                    emit("rowrites 1")
+                    if rng.chance(3, 4):
+                        emit("addmm %d %d %d" % (rng.choice([0, 0, PS]), rng.choice([PS, 2 * PS, HUGE[1]]), rng.choice([0, 0, 1])))
+                    for _ in range(rng.range(1, 4)):
+                        at = pick_off(rng, o, max(0, o.size - 1))
+                        emit(rng.choice(["write %d %s" % (at, stream(rng.u64(), rng.choice([1, 5, PS])).hex()),
+                                         "copy %d %d %d" % (at, rng.choice([1, 7, PS]), pick_off(rng, o, max(0, o.size - 1))),
+                                         "write %d aa" % (o.size + rng.choice([0, 1, PS]))]))
+                        emit("read %d %d" % (max(0, at - 2), 12))
+                    emit("rowrites 0")
                 emit("close")
             emit(open_line(0))
         elif k == "reopen":
@@ -687,7 +728,11 @@ def gen_script(rng, run):
         elif k == "edge":
             emit(rng.choice(["write -1 aa", "write %d aabbcc" % (OFFMAX - 1), "read -5 3", "read %d 9" % (OFFMAX - 3),
                              "read %d 7" % (o.size + rng.choice([0, 1, PS])), "write %d 0102" % (1 << 62) if o.maxoff else "state",
-                             "ensure 0", "truncate 0"]))
+                             "ensure 0", "truncate 0"] +
+                            (["ensure -1", "truncate -1", "copy 0 10 -11", "ensure -%d" % PS, "truncate -%d" % (2 * PS), "copy 5 3 -9"] * 2 if R7 else [])))
+            if R7 and o.opened:
+                emit("state")
+                emit("read 0 %d" % min(o.size, 2 * PS))
     if o.lim is not None:
         if o.opened and rng.chance(1, 2):  # what the next open sees while the limit is still in force
             emit("close")
@@ -975,6 +1020,12 @@ def gen_fscript(rng, run):
                 n = rng.choice([0, 1, 5, 100, PS, PS + 7, 4096 + 4096 + 1])
                 at = min(at, sz)
                 n = min(n, sz - at)
+                if sz > 4096 + 10 and rng.chance(1, 3):  # overlapping, a chunk or more apart: the chunk order decides
+                    at = rng.choice([0, 1, 7])
+                    n = min(sz - at, 4096 + rng.choice([1, 9, 4096, 5000]))
+                    emit("fcopy %d %d %d" % (at, n, at + rng.choice([4096, 4097, n - 1])))
+                    emit("fread 0 %d" % (at + 2 * n + 10))
+                    continue
                 noff = max(0, rng.choice([at - n, at - n - 1, at + n, at + n + 1, at - 1, 0, sz, sz + 10] + ([at + 1, at + n - 1] if rng.chance(1, 4) else [])))
                 emit("fcopy %d %d %d" % (at, n, noff))
             else:
@@ -1022,10 +1073,35 @@ def open_finding_scripts():
         # a forward-overlapping copy through the file: refused, but only after the file has grown; through a window it is carried out
         ["open 1 %d 0 def" % (3 * PS), "write 0 0102030405", "copy 0 %d %d" % (3 * PS, 2 * PS), "state", "read %d 5" % (2 * PS),
          "addmm 0 %d 0" % (64 * PS), "copy 0 %d %d" % (3 * PS, 2 * PS), "read %d 5" % (2 * PS), "close"],
+        # overlapping copies whose ranges are one chunk or more apart, every byte read back: without a window, across the edge of a
+        # window over the first page, and inside a whole-file window
+        ["open 1 %d 0 def" % (3 * PS), "write 0 %s" % stream(71, 3 * PS).hex(), "copy 0 %d %d" % (2 * PS, PS), "read 0 %d" % (3 * PS),
+         "copy 0 %d %d" % (3 * PS, 2 * PS), "read 0 %d" % (5 * PS), "copy %d %d 0" % (PS + 1, 3 * PS), "read 0 %d" % (5 * PS), "close"],
+        ["open 1 %d 0 def" % (4 * PS), "addmm 0 %d 0" % PS, "write 0 %s" % stream(72, 4 * PS).hex(), "copy 100 %d %d" % (2 * PS, PS + 100),
+         "read 0 %d" % (4 * PS), "copy %d %d 50" % (PS + 50, 2 * PS + 7), "read 0 %d" % (4 * PS), "close"],
+        ["open 1 %d 0 def" % (4 * PS), "addmm 0 %d 0" % HUGE[1], "write 0 %s" % stream(73, 4 * PS).hex(), "copy 0 %d %d" % (2 * PS + 9, PS),
+         "read 0 %d" % (4 * PS), "close"],
         # acquire_mmap of an offset without a window keeps the read lock
         ["locks 1", "open 1 %d 0 def" % PS, "acquire %d" % (2 * PS), "write %d aa" % (2 * PS), "open 1 %d 0 def" % PS, "acquire 0",
          "truncate %d" % (2 * PS), "locks 0"],
     ]
+
+
+def overlap_leak_check(run, impl, tmp):
+    """fixes/exf-addmmap-overlap-leak.diff: _exfile_add_mmap_lw maps the new window before the overlap test and frees the slot without
+    munmap when it answers IWFS_ERROR_MMAP_OVERLAP: 40 refused windows of 16 MiB each must not leave 640 MiB of address space behind"""
+    big = 16 << 20
+    s = ["open 1 %d 0 def" % big, "addmm 0 %d 0" % PS, "vmkb"] + ["addmm 0 %d 0" % HUGE[1]] * 40 + ["vmkb", "close"]
+    rc, out, err = vlib.run_lines([impl, tmp], "\n".join(s) + "\n", timeout=120)
+    run.dist("addmmap-overlap-leak-script")
+    out = [l for l in out if l.strip()]
+    if len(out) < len(s) or any(l.split()[1:2] != ["OVERLAP"] for l in out[3:43]):
+        run.broken.append("C12 overlap script: unexpected answers (%r)" % (out[:6],))
+        return
+    before, after = int(out[2].split()[1]), int(out[43].split()[1])
+    if after - before > (big >> 10) * 4:
+        run.violation({"script": s[:6] + ["..."] + s[-2:], "impl": [out[2], out[43]], "kind": "addmmap-overlap-leak"},
+                      "40 windows refused with OVERLAP left their mappings behind: address space %d KiB before, %d KiB after" % (before, after))
 
 
 def mapfail_check(run, impl):
@@ -1033,6 +1109,8 @@ def mapfail_check(run, impl):
     leak_check(run, impl, tmp)
     if OPEN:
         flock_leak_check(run, impl, tmp)
+    if R7:
+        overlap_leak_check(run, impl, tmp)
 
 
 # ------------------------------------------------------------------------------------------------
@@ -1073,11 +1151,14 @@ def run_scripts(impl, model, scripts, tag):
 def corpus_scripts():
     d = os.path.join(vlib.VERIF, "corpus", "C12")
     out = []
-    if os.path.isdir(d):
-        for cf in sorted(os.listdir(d)):
-            ls = [l.strip() for l in open(os.path.join(d, cf)) if l.strip() and not l.startswith("#")]
-            if ls:
-                out.append(ls)
+    for dd in [d] + ([os.path.join(d, "pending")] if R7 else []):  # pending/: replays of findings whose repair is not committed yet
+        if os.path.isdir(dd):
+            for cf in sorted(os.listdir(dd)):
+                if not os.path.isfile(os.path.join(dd, cf)):
+                    continue
+                ls = [l.strip() for l in open(os.path.join(dd, cf)) if l.strip() and not l.startswith("#")]
+                if ls:
+                    out.append(ls)
     return out
 
 
